@@ -20,6 +20,13 @@ Theorem C16_tables_ok : txt_table_ok = true /\ qr_table_ok = true.
 Proof. exact (conj txt_table_ok_now qr_table_ok_now). Qed.
 Print Assumptions C16_tables_ok.
 
+(* processMdnsEntry accepts exactly the records the property calls valid: the five mandatory
+   keys present, txtvers "1", SKI not the reader's own, register "true" or "false" *)
+Theorem C16_validation :
+  forall (own : bytes) (m : elements), is_some (entry_of_txt own m) = txt_valid own m.
+Proof. exact validation_agrees. Qed.
+Print Assumptions C16_validation.
+
 (* TXT round trip, the code as it is now: for EVERY configuration (any byte strings, any
    length, '=' ';' ':' included), both auto-accept values, every category list within
    32 bits and every reader with another SKI, the entry read back carries the same SKI,
